@@ -1676,6 +1676,10 @@ func (vc *VC) specTypeSort(tn string, pkgPath string) (*Sort, types.Type) {
 	var pkg *types.Package
 	if sp := vc.P.Pkgs[pkgPath]; sp != nil {
 		pkg = sp.Pkg
+	} else if vc.pkg != nil {
+		// the declaring package is not part of this run (a contract of a dependent package names the function):
+		// qualified type names are resolved in the scope of the package being verified instead
+		pkg = vc.pkg.Pkg
 	}
 	env := &SpecEnv{vc: vc, pkg: pkg}
 	var s *Sort
